@@ -216,7 +216,8 @@ def _build(d):
         from props import _d_hist as H
         root, nodes = core.build_binary_tree(d["spec"], cls=H.hooked_bin() if d.get("prep") else None)
     else:
-        root, nodes = core.build_node_tree(d["spec"])
+        # a third of the plain trees are made of a user class with value equality (equal, distinct nodes in one tree)
+        root, nodes = core.build_node_tree(d["spec"], cls=core.eq_class() if not d.get("prep") and core.eq_share(d["spec"]) else None)
     prep = d.get("prep")
     if prep:
         import bigtree
